@@ -345,3 +345,25 @@ def rule_null_first(ctx, m, files):
             r.ob(f.q, f.text(par.get(p, p))[:50], how is not None, how or ("`%s` comes from %s.%s and is null when that container is empty; nothing on the way here excludes it" % (
                 name, cont, "First()/Last()/Storage()")), f.loc(i))
     return r
+
+
+def rule_equal_lengths(ctx, m):
+    """SB-eqlen: StringUtils::IsEqual(a, b, n) compares n units; the equality members of String / StringView / StringStream
+    may call it only in conjunction with an *equality* of the two lengths (with >= it answers "starts with", and every key
+    comparison built on it -- hash-table lookups, GroupBy's key test -- accepts keys that merely share a prefix)."""
+    r = Rule("SB-eqlen", "the equality members compare contents only after an equality test of the two lengths", floor=8)
+    for f in m.functions:
+        if f.inst or f.cls not in ("Qentem::String", "Qentem::StringView", "Qentem::StringStream"):
+            continue
+        for c in astq.calls(f, "IsEqual"):
+            if len(f.call_args(c)) != 3 or f.call_receiver(c) is not None:
+                continue
+            ctx.note_fn(f)
+            top = c
+            par = f.parents()
+            while par.get(top) is not None and (f.nodes[par[top]]["k"] in ("ParenExpr", "ImplicitCastExpr") or (f.nodes[par[top]]["k"] == "BinaryOperator" and f.nodes[par[top]]["op"] == "&&")):
+                top = par[top]
+            eqs = [x for x in f.walk(top) if f.nodes[x]["k"] == "BinaryOperator" and f.nodes[x]["op"] == "==" and "Length()" in f.text(x) and c not in set(f.walk(x))]
+            rel = [f.text(x) for x in f.walk(top) if f.nodes[x]["k"] == "BinaryOperator" and f.nodes[x]["op"] in ("<", "<=", ">", ">=") and "Length()" in f.text(x)]
+            r.ob(f.sig, f.text(top)[:80], bool(eqs) and not rel, "lengths compared with %s" % ("==" if eqs and not rel else (rel or "nothing") ), f.loc(c))
+    return r
